@@ -33,6 +33,8 @@ def cases(tier, rng):
     yield Case("prt.lcsweep 130", check=sweep_check(130), tag="sweep")
     if tier == "thorough": yield Case("prt.lcsweep 300", check=sweep_check(300), tag="sweep")
     pairs = [(L, c) for L in (0, 1, 2, 126, 127, 128, 129, 130, 255, 256) for c in (0, 1, 2, 126, 127)]
+    # list lengths that agree with the count modulo 128, 256, 65536 (a narrowed comparison would accept them)
+    pairs += [(c + k, c) for c in (0, 1, 5, 127) for k in (128, 256, 384, 512, 65536)]
     pairs += [(rng.randrange(131), rng.randrange(128)) for _ in range(40)] + [(k, k) for k in range(0, 128, 9)]
     for L, c in pairs:
         f1, f2 = rng.randrange(2), rng.randrange(2)
